@@ -124,11 +124,11 @@ struct DsEngine {
 // ------------------------------------------------------------------ one shard
 struct Plan { bool thorough; uint64_t seed; bool light; };
 
-struct Pred { int type; bool self; uint32_t imm; };     // single-word disagreement already reported by this shard
+struct Pred { int type; bool self; bool any_imm; uint32_t imm; bool any_mod; uint8_t mod; };     // single-word disagreement already reported by this shard
 static bool neutralize(CaseSpec& c, const std::vector<Pred>& preds) {
 	bool changed = false;
 	for (int i = 0; i < prog_size(c.version); ++i) { Word w = get(c.prog, i); if (is_filler(w)) continue;
-		for (const Pred& p : preds) if (optab().type_of[w.op] == p.type && ((w.src & 7) == (w.dst & 7)) == p.self && w.imm == p.imm) { put(c.prog, i, filler()); changed = true; break; } }
+		for (const Pred& p : preds) if (optab().type_of[w.op] == p.type && ((w.src & 7) == (w.dst & 7)) == p.self && (p.any_imm || w.imm == p.imm) && (p.any_mod || w.mod == p.mod)) { put(c.prog, i, filler()); changed = true; break; } }
 	return changed;
 }
 // Every disagreement is either attributed to an already reported single-word key (the program agrees once those words are
@@ -146,7 +146,17 @@ static void report(Engine& eng, vf::Result& r, CaseSpec c, const Outcome& first,
 	if (o.agree) { vf::Violation v; v.key = "flaky"; v.what = "disagreement did not reproduce on re-run: " + first.what; v.replay = case_json(c); r.viol.push_back(v); return; }
 	std::string key = violation_key(c, o);
 	std::vector<int> live = live_slots(c);
-	if (live.size() == 1 && o.cls.rfind("emu:", 0) != 0) { Word w = get(c.prog, live[0]); preds.push_back(Pred{ optab().type_of[w.op], (w.src & 7) == (w.dst & 7), w.imm }); }
+	if (live.size() == 1 && o.cls.rfind("emu:", 0) != 0) {
+		// generalise the single word: does the disagreement depend on imm32 / mod at all?
+		Word w = get(c.prog, live[0]); Pred p{ optab().type_of[w.op], (w.src & 7) == (w.dst & 7), false, w.imm, false, w.mod };
+		{ CaseSpec t = c; Word x = w; x.imm = w.imm ? 0 : 1; put(t.prog, live[0], x); Outcome o2 = eng.run(t); ++runs; if (!o2.agree) { p.any_imm = true; } }
+		{ CaseSpec t = c; Word x = w; x.mod = w.mod ? 0 : 1; put(t.prog, live[0], x); Outcome o2 = eng.run(t); ++runs; if (!o2.agree) { p.any_mod = true; } }
+		char b[128]; std::string ks = std::string(type_name(p.type)) + (p.self ? "/self" : "/reg");
+		if (!p.any_mod) { snprintf(b, sizeof b, "/mod=0x%02x", w.mod); ks += b; }
+		if (p.any_imm) ks += "/imm=*"; else { snprintf(b, sizeof b, "/imm=0x%08x", w.imm); ks += b; }
+		key = ks; preds.push_back(p);
+		eng.run(c);   // leave the engine state of the reported case for describe/replay consistency
+	}
 	if (!keys.insert(key).second) return;
 	vf::Violation v; v.key = key; v.what = describe_case(c, o); v.replay = case_json(c); v.replay.set("first_difference", o.what);
 	r.viol.push_back(v);
@@ -196,32 +206,6 @@ static vf::Result shard_main(const vf::Args& a, Env& env, const Plan& pl, int sh
 	uint64_t thin_n = 0; const uint64_t thin_div = pl.thorough ? 4 : 2;
 	auto thin = [&](CaseSpec& cs) { if (cs.mode && (thin_n++ % thin_div)) cs.mode = 0; };
 	if (!SUBSET_PROFILE) {
-		// ---- (b) sequences
-		FamB fb(pl.thorough);
-		for (uint64_t j = 0; j < fb.jobs() && !stop(); ++j) {
-			if (!mine()) continue;
-			for (unsigned q = 0; q < (pl.thorough ? 1u : 3u); ++q) {
-				set_combo(c, (unsigned)((j >> 1) * 29 + (j & 1) * 64 + j / 977 + q * 43), pl.light); thin(c); fb.build(env, c, j);
-				one(c, "b_sequences", false);
-			}
-		}
-		r.mx["family_b_alphabet"] = fb.alpha.size(); r.mx["family_b_length"] = (uint64_t)fb.L;
-		// ---- (a) every instruction word, two packings x two versions
-		FamA fa(pl.thorough, pl.seed);
-		r.mx["family_a_words"] = fa.N; r.mx["family_a_imm_values"] = fa.imms.size(); r.mx["family_a_mod_values"] = fa.mods.size();
-		unsigned K = pl.thorough ? 1 : 3;
-		for (int packing = 0; packing < 2; ++packing) for (int v = 1; v <= 2; ++v) {
-			uint64_t np = fa.programs(v);
-			for (uint64_t k = 0; k < np && !stop(); ++k) {
-				if (!mine()) continue;
-				for (unsigned q = 0; q < K; ++q) {
-					c.version = v; set_combo(c, (unsigned)(k * 37 + q * 53 + packing * 11 + v * 5), pl.light); thin(c);
-					fa.build(env, c, packing, k);
-					one(c, "a_words", false);
-				}
-				r.n["a_words_covered"] += std::min<uint64_t>((uint64_t)prog_size(v), fa.N - k * (uint64_t)prog_size(v));
-			}
-		}
 		// ---- (e) dataset items: one cache key per shard
 		int nkeys = pl.thorough ? 6 : 3;
 		if (pl.light && shard < nkeys && !stop()) {
@@ -248,6 +232,32 @@ static vf::Result shard_main(const vf::Args& a, Env& env, const Plan& pl, int sh
 			}
 			r.n["dataset_keys"]++;
 			eng.use_cache(env.cache);
+		}
+		// ---- (b) sequences
+		FamB fb(pl.thorough);
+		for (uint64_t j = 0; j < fb.jobs() && !stop(); ++j) {
+			if (!mine()) continue;
+			for (unsigned q = 0; q < (pl.thorough ? 1u : 3u); ++q) {
+				set_combo(c, (unsigned)((j >> 1) * 29 + (j & 1) * 64 + j / 977 + q * 43), pl.light); thin(c); fb.build(env, c, j);
+				one(c, "b_sequences", false);
+			}
+		}
+		r.mx["family_b_alphabet"] = fb.alpha.size(); r.mx["family_b_length"] = (uint64_t)fb.L;
+		// ---- (a) every instruction word, two packings x two versions
+		FamA fa(pl.thorough, pl.seed);
+		r.mx["family_a_words"] = fa.N; r.mx["family_a_imm_values"] = fa.imms.size(); r.mx["family_a_mod_values"] = fa.mods.size();
+		unsigned K = pl.thorough ? 1 : 3;
+		for (int packing = 0; packing < 2; ++packing) for (int v = 1; v <= 2; ++v) {
+			uint64_t np = fa.programs(v);
+			for (uint64_t k = 0; k < np && !stop(); ++k) {
+				if (!mine()) continue;
+				for (unsigned q = 0; q < K; ++q) {
+					c.version = v; set_combo(c, (unsigned)(k * 37 + q * 53 + packing * 11 + v * 5), pl.light); thin(c);
+					fa.build(env, c, packing, k);
+					one(c, "a_words", false);
+				}
+				r.n["a_words_covered"] += std::min<uint64_t>((uint64_t)prog_size(v), fa.N - k * (uint64_t)prog_size(v));
+			}
 		}
 	}
 	r.n["guest_instructions"] = eng.total_insns + 0;
